@@ -326,6 +326,65 @@ ActDkg3(kph, pkph, sech2, r1, r2, refresh, opkph, okph) ==
                   @@ [expect |-> IF res.ok THEN [ok |-> TRUE, kp |-> KpProj(res.kp), pkp |-> PkpProj(res.pkp)]
                                  ELSE ErrProj(res)])
 
+
+-----------------------------------------------------------------------------
+(* keys/refresh.rs (trusted dealer), keys/repairable.rs *)
+
+\* compute_refreshing_shares -> zero shares <<ssn, id>> and the refreshed package
+ActRefreshShares(ssn, npkph, pkph, ids, coeffs) ==
+  /\ Has(pkph)
+  /\ Len(coeffs) = RefreshDraws(env[pkph], ids)
+  /\ LET res == ComputeRefreshingShares(env[pkph], ids, coeffs) IN
+     /\ ro' = ro
+     /\ Finish("refresh_shares", res,
+               IF res.ok THEN
+                 [h \in {npkph} \cup {<<ssn, i>> : i \in DOMAIN res.shares} |->
+                    IF h = npkph THEN PkpObj(res.pkp)
+                    ELSE [ty |-> "ss", id |-> h[2], share |-> res.shares[h[2]], commit |-> res.commit]]
+               ELSE << >>,
+               [op |-> "refresh_shares", out_ss |-> ssn, out_pkp |-> npkph, pkp |-> pkph, ids |-> ids,
+                rng |-> Draws2(coeffs),
+                expect |-> IF res.ok THEN [ok |-> TRUE,
+                                          shares |-> [k \in DOMAIN ids |-> <<ids[k], res.shares[ids[k]]>>],
+                                          commit |-> res.commit, pkp |-> PkpProj(res.pkp)]
+                           ELSE ErrProj(res)])
+
+ActRefreshShare(out, ssh, kph) ==
+  /\ Has(ssh) /\ Has(kph)
+  /\ LET res == RefreshShare(env[ssh], env[kph]) IN
+     /\ ro' = ro
+     /\ Finish("refresh_share", res, IF res.ok THEN (out :> KpObj(KpProj(res))) ELSE << >>,
+               [op |-> "refresh_share", out |-> out, ss |-> ssh, kp |-> kph,
+                expect |-> IF res.ok THEN [ok |-> TRUE] @@ KpProj(res) ELSE ErrProj(res)])
+
+\* repair_share_part1: deltas are bound to <<dn, recipient helper>>
+ActRepair1(dn, helpers, kph, draws, x) ==
+  /\ Has(kph)
+  /\ Len(draws) = RepairDraws(helpers, env[kph])
+  /\ LET res == RepairPart1(helpers, env[kph], draws, x) IN
+     /\ ro' = ro
+     /\ Finish("repair1", res,
+               IF res.ok THEN [h \in {<<dn, j>> : j \in DOMAIN res.deltas} |-> [ty |-> "sc", v |-> res.deltas[h[2]]]]
+               ELSE << >>,
+               [op |-> "repair1", out |-> dn, helpers |-> helpers, kp |-> kph, target |-> x,
+                rng |-> Draws2(draws),
+                expect |-> IF res.ok THEN [ok |-> TRUE, deltas |-> Pairs(res.deltas)] ELSE ErrProj(res)])
+
+ActRepair2(out, dhs) ==
+  /\ \A k \in DOMAIN dhs : Has(dhs[k])
+  /\ LET res == RepairPart2([k \in DOMAIN dhs |-> env[dhs[k]].v]) IN
+     /\ ro' = ro
+     /\ Finish("repair2", res, (out :> [ty |-> "sc", v |-> res.sigma]),
+               [op |-> "repair2", out |-> out, deltas |-> dhs, expect |-> [ok |-> TRUE, sigma |-> res.sigma]])
+
+ActRepair3(out, shs, id, pkph) ==
+  /\ Has(pkph) /\ \A k \in DOMAIN shs : Has(shs[k])
+  /\ LET res == RepairPart3([k \in DOMAIN shs |-> env[shs[k]].v], id, env[pkph]) IN
+     /\ ro' = ro
+     /\ Finish("repair3", res, IF res.ok THEN (out :> KpObj(KpProj(res))) ELSE << >>,
+               [op |-> "repair3", out |-> out, sigmas |-> shs, id |-> id, pkp |-> pkph,
+                expect |-> IF res.ok THEN [ok |-> TRUE] @@ KpProj(res) ELSE ErrProj(res)])
+
 -----------------------------------------------------------------------------
 (* emission of a finished behaviour as one replayable script *)
 
